@@ -241,6 +241,7 @@ def run_mc(pid, tier, workdir, export_depth=None):
         consts = dict(consts)
         if export_depth is not None:
             consts["ExportDepth"] = export_depth
+            consts["ExportEvery"] = mcconf.EXPORT_EVERY.get(tier, 53)
         cfg = mcconf.cfg_text(consts)
         limit = int(os.environ.get("VERIF_MC_BUDGET_S", "150" if tier == "quick" else "1500"))
         res = run_tlc(os.path.join(workdir, "mc%d" % i), SPEC, "EngineConf", cfg, workers=TLC_WORKERS, timeout=limit, java_opts="-Xss1g -Xmx16g", soft=True)
@@ -761,13 +762,163 @@ def check_aws(pid, tier, seed):
                     "TLC as the judge of MonC20 and AwsBuilder.tla"], time.time() - t0, violations, {"log": log})
     return 1 if violations else 0
 
+
+# ------------------------------------------------------------------------------------------------
+# byte pumps and result delivery (C13): BytePump.tla + the real tokio and threaded clients
+
+def pump_cfg(adapter, driver, defects, export=False):
+    lines = ["SPECIFICATION Spec", "CONSTANTS", '  Adapter = "%s"' % adapter, '  Driver = "%s"' % driver, "  Defects = {%s}" % ", ".join('"%s"' % d for d in defects),
+             "  MaxBatches = 2", "  MaxBatch = 3", "  MaxIn = 5", "  BufSize = 3", "  MaxOps = 3",
+             "INVARIANT WriteFaithful", "INVARIANT ReadFaithful", "INVARIANT AtMostOneResult", "INVARIANT AllResolvedAfterExit"]
+    if export: lines.append("INVARIANT ExportReads")
+    lines.append("CHECK_DEADLOCK FALSE")
+    return "\n".join(lines) + "\n"
+
+# defects of the pinned tree that BytePump.tla can switch back on, with the invariant each one breaks
+PUMP_DEFECTS = [("ws", "threaded", "ws-cursor-from-start", "ReadFaithful"), ("ws", "threaded", "ws-read-overwrites", "ReadFaithful"),
+                ("ws", "threaded", "ws-blocked-after-queue", "WriteFaithful"), ("plain", "threaded", "slot-never-resolved", "AllResolvedAfterExit")]
+
+TOKIO_PUMP_REGRESSIONS = [
+ {"cfg": {"src": "S3:pump-tokio-happy", "auto_broker": True, "ka": 0}, "steps": [{"a": "Start"}, {"a": "Run", "ms": 50}, {"a": "Publish", "qos": 0, "size": 10}, {"a": "Publish", "qos": 1, "size": 300}, {"a": "Publish", "qos": 2, "size": 20}, {"a": "Subscribe"}, {"a": "Inbound", "n": 3, "size": 40}, {"a": "Settle", "ms": 2000}]},
+ {"cfg": {"src": "S3:pump-tokio-byte-at-a-time", "auto_broker": True, "ka": 0}, "steps": [{"a": "Start"}, {"a": "Run", "ms": 50}, {"a": "WriteChunk", "n": 1}, {"a": "ReadChunk", "n": 1}, {"a": "Publish", "qos": 1, "size": 9000}, {"a": "Publish", "qos": 0, "size": 5}, {"a": "Inbound", "n": 2, "size": 5000}, {"a": "Publish", "qos": 2, "size": 4100}, {"a": "Settle", "ms": 4000}]},
+ {"cfg": {"src": "S3:pump-tokio-stall-and-resume", "auto_broker": True, "ka": 0}, "steps": [{"a": "Start"}, {"a": "Run", "ms": 50}, {"a": "WriteStall", "on": True}, {"a": "Publish", "qos": 1, "size": 5000}, {"a": "Publish", "qos": 1, "size": 5000}, {"a": "Yield", "n": 5}, {"a": "WriteChunk", "n": 7}, {"a": "WriteStall", "on": False}, {"a": "Settle", "ms": 4000}]},
+ {"cfg": {"src": "S3:results-tokio-submit-around-close", "auto_broker": True, "ka": 0}, "steps": [{"a": "Start"}, {"a": "Run", "ms": 50}, {"a": "Publish", "qos": 1, "size": 10}, {"a": "Subscribe"}, {"a": "Close"}, {"a": "Publish", "qos": 0, "size": 10}, {"a": "Publish", "qos": 1, "size": 10}, {"a": "Unsubscribe"}, {"a": "Settle", "ms": 3000}]},
+]
+THREADED_PUMP_REGRESSIONS = [
+ {"cfg": {"src": "S3:pump-threaded-happy", "adapter": "plain"}, "steps": [{"a": "Start"}, {"a": "WaitConnected"}, {"a": "Publish", "qos": 0, "size": 10}, {"a": "Publish", "qos": 1, "size": 300}, {"a": "Publish", "qos": 2, "size": 20}, {"a": "Subscribe"}, {"a": "Inbound", "n": 3, "size": 40}, {"a": "Settle", "ms": 2000}]},
+ {"cfg": {"src": "S3:pump-threaded-tiny-writes", "adapter": "plain", "write_chunk": 1, "read_chunk": 1, "block_every": 3}, "steps": [{"a": "Start"}, {"a": "WaitConnected"}, {"a": "Publish", "qos": 0, "size": 10}, {"a": "Publish", "qos": 1, "size": 6000}, {"a": "Publish", "qos": 2, "size": 20}, {"a": "Inbound", "n": 4, "size": 700}, {"a": "Settle", "ms": 4000}]},
+ {"cfg": {"src": "S3:f12-threaded-submit-after-close", "adapter": "plain"}, "steps": [{"a": "Start"}, {"a": "WaitConnected"}, {"a": "Publish", "qos": 1, "size": 10}, {"a": "Close"}, {"a": "Publish", "qos": 0, "size": 10}, {"a": "Publish", "qos": 1, "size": 10}, {"a": "Publish", "qos": 1, "size": 10, "callback": True}, {"a": "Subscribe"}, {"a": "Settle", "ms": 1500}]},
+ {"cfg": {"src": "S3:ws-happy", "adapter": "ws"}, "steps": [{"a": "Start"}, {"a": "WaitConnected"}, {"a": "Publish", "qos": 0, "size": 10}, {"a": "Publish", "qos": 1, "size": 300}, {"a": "Inbound", "n": 1, "size": 40}, {"a": "Settle", "ms": 2000}]},
+ {"cfg": {"src": "S3:f11a-ws-message-larger-than-read-buffer", "adapter": "ws"}, "steps": [{"a": "Start"}, {"a": "WaitConnected"}, {"a": "Inbound", "n": 1, "size": 6000}, {"a": "Settle", "ms": 2000}]},
+ {"cfg": {"src": "S3:f11b-ws-several-messages-per-read", "adapter": "ws"}, "steps": [{"a": "Start"}, {"a": "WaitConnected"}, {"a": "Inbound", "n": 3, "size": 10, "per_message": 1}, {"a": "Settle", "ms": 2000}]},
+ {"cfg": {"src": "S3:ws-large-outbound", "adapter": "ws"}, "steps": [{"a": "Start"}, {"a": "WaitConnected"}, {"a": "Publish", "qos": 1, "size": 200000}, {"a": "Publish", "qos": 1, "size": 200000}, {"a": "Publish", "qos": 0, "size": 10}, {"a": "Settle", "ms": 4000}]},
+]
+
+
+def random_pump_scripts(seed, n_tokio, n_threaded, n_ws):
+    import random
+    rng = random.Random(seed)
+    tokio, threaded = [], []
+    sizes = [0, 1, 5, 100, 127, 128, 1000, 4090, 4096, 4097, 9000, 20000]
+    for i in range(n_tokio):
+        steps = [{"a": "Start"}, {"a": "Run", "ms": 50}]
+        closed = False
+        for k in range(rng.randint(3, 14)):
+            r = rng.random()
+            if r < 0.15: steps.append({"a": "WriteChunk", "n": rng.choice([0, 1, 2, 3, 7, 64, 1000])})
+            elif r < 0.25: steps.append({"a": "ReadChunk", "n": rng.choice([0, 1, 2, 5, 100])})
+            elif r < 0.32 and not closed: steps += [{"a": "WriteStall", "on": True}, {"a": "Publish", "qos": rng.choice([0, 1, 2]), "size": rng.choice(sizes)}, {"a": "Yield", "n": rng.randint(1, 6)}, {"a": "WriteStall", "on": False}]
+            elif r < 0.62: steps.append({"a": "Publish", "qos": rng.choice([0, 1, 2]), "size": rng.choice(sizes)})
+            elif r < 0.70: steps.append({"a": rng.choice(["Subscribe", "Unsubscribe"])})
+            elif r < 0.82 and not closed: steps.append({"a": "Inbound", "n": rng.randint(1, 4), "size": rng.choice(sizes)})
+            elif r < 0.88: steps.append({"a": "Yield", "n": rng.randint(1, 5)})
+            elif r < 0.93 and not closed: steps.append({"a": "Close"}); closed = True
+            else: steps.append({"a": "Run", "ms": rng.choice([1, 10, 100])})
+        steps.append({"a": "Settle", "ms": 4000})
+        tokio.append({"cfg": {"src": "S2:pump-tokio:%d" % i, "auto_broker": True, "ka": 0}, "steps": steps})
+    for i in range(n_threaded + n_ws):
+        ws = i >= n_threaded
+        cfg = {"src": "S2:pump-%s:%d" % ("ws" if ws else "threaded", i), "adapter": "ws" if ws else "plain"}
+        if not ws: cfg.update({"write_chunk": rng.choice([0, 1, 2, 3, 7, 64, 1000]), "read_chunk": rng.choice([0, 1, 2, 5, 100]), "block_every": rng.choice([0, 0, 2, 3, 5])})
+        steps = [{"a": "Start"}, {"a": "WaitConnected"}]
+        closed = False
+        for k in range(rng.randint(2, 8)):
+            r = rng.random()
+            if r < 0.5: steps.append({"a": "Publish", "qos": rng.choice([0, 1, 2]), "size": rng.choice(sizes), "callback": rng.random() < 0.3})
+            elif r < 0.6: steps.append({"a": "Subscribe"})
+            elif r < 0.85 and not closed:
+                st = {"a": "Inbound", "n": rng.randint(1, 4), "size": rng.choice(sizes)}
+                if ws: st["per_message"] = rng.choice([0, 1, 2])
+                steps.append(st)
+            elif r < 0.92 and not closed: steps.append({"a": "Close"}); closed = True
+            else: steps.append({"a": "Sleep", "ms": rng.choice([1, 5, 20])})
+        steps.append({"a": "Settle", "ms": 3000})
+        threaded.append({"cfg": cfg, "steps": steps})
+    return tokio, threaded
+
+
+def run_scripts(binary, scripts, workdir, name):
+    os.makedirs(workdir, exist_ok=True)
+    sp = os.path.join(workdir, name + ".scripts")
+    with open(sp, "w") as f:
+        for sc in scripts:
+            f.write(json.dumps(sc) + "\n")
+    trace = os.path.join(workdir, name + ".ndjson")
+    rc, out, dt = sh([os.path.join(BIN, binary), "--scripts-in", sp, "--out", trace], cwd=workdir, timeout=3000)
+    if rc != 0:
+        sys.stdout.write(out[-3000:])
+        raise ToolError(binary + " failed")
+    stats = json.loads(out.strip().splitlines()[-1])
+    stats["wall_s"] = round(dt, 1)
+    return trace, sp, stats
+
+
+def check_pump(pid, tier, seed):
+    t0 = time.time()
+    log = {}
+    workdir = os.path.join(WORK, pid)
+    os.makedirs(workdir, exist_ok=True)
+    build_harness(log)
+    known = load_known()
+    big = tier == "thorough"
+    mc = {"instances": [], "distinct": 0, "generated": 0}
+    reads = []
+    for adapter, driver in (("plain", "tokio"), ("plain", "threaded"), ("ws", "threaded")):
+        r = run_tlc(os.path.join(workdir, "bp-%s-%s" % (adapter, driver)), SPEC, "BytePump", pump_cfg(adapter, driver, [], export=(adapter == "ws")), workers=6, timeout=1800)
+        if not r["ok"]:
+            sys.stdout.write(r["text"][-3000:])
+            raise ToolError("BytePump.tla (repaired behaviour, %s/%s) violates a C13 invariant: the specification and the code must be re-examined" % (adapter, driver))
+        mc["instances"].append({"name": "repaired behaviour: %s transport, %s driver" % (adapter, driver), "distinct": r.get("distinct", 0), "generated": r.get("generated", 0), "wall_s": r["wall_s"], "ok": True})
+        mc["distinct"] += r.get("distinct", 0); mc["generated"] += r.get("generated", 0)
+        if adapter == "ws":
+            seen_sizes = set()
+            for _, x in tla_json_lines(r["text"], "READS"):
+                seen_sizes.add(tuple(x["sizes"]))
+            reads = sorted(seen_sizes)
+    for adapter, driver, defect, expect in PUMP_DEFECTS:
+        r = run_tlc(os.path.join(workdir, "bp-" + defect[:10]), SPEC, "BytePump", pump_cfg(adapter, driver, [defect]), workers=4, timeout=600)
+        found = (not r["ok"]) and expect in r["text"]
+        mc["instances"].append({"name": "defect switched on: " + defect, "expected_violation": expect, "found": found, "distinct": r.get("distinct", 0), "wall_s": r["wall_s"]})
+        if not found:
+            raise ToolError("BytePump.tla no longer exposes the recorded defect '%s'" % defect)
+    # S1: every fragmentation of the peer's stream into WebSocket messages that TLC enumerated (1 unit = 1400 bytes, read buffer 3 units ~ 4096 bytes)
+    s1 = [{"cfg": {"src": "S1:pump-ws-reads:%s" % "-".join(map(str, sizes)), "adapter": "ws"},
+           "steps": [{"a": "Start"}, {"a": "WaitConnected"}, {"a": "Inbound", "n": 5, "size": 1390, "cuts": [k * 1400 for k in sizes]}, {"a": "Settle", "ms": 2500}]} for sizes in reads]
+    tk, th = random_pump_scripts(seed, 1500 if big else 200, 400 if big else 60, 120 if big else 20)
+    t_trace, t_sp, t_stats = run_scripts("client_run", TOKIO_PUMP_REGRESSIONS + tk, workdir, "pump-tokio")
+    h_trace, h_sp, h_stats = run_scripts("thread_run", THREADED_PUMP_REGRESSIONS + s1 + th, workdir, "pump-threaded")
+    violations, seen, events, breaches_n = 0, [], 0, 0
+    for trace, sp, tag in ((t_trace, t_sp, "tc-tokio"), (h_trace, h_sp, "tc-threaded")):
+        verdict, tlc = trace_check(trace, [pid], os.path.join(workdir, tag))
+        breaches = list(verdict["errs"][pid])
+        v, sn = report(pid, breaches, trace, sp, known, workdir)
+        violations += v; seen += sn; events += verdict["events"]; breaches_n += len(breaches)
+    skipped = 0
+    with open(h_trace) as f:
+        for line in f:
+            if '"Skipped"' in line: skipped += 1
+    samples = [{"src": sc["cfg"]["src"], "cfg": sc["cfg"], "steps": sc["steps"][:12]} for sc in (TOKIO_PUMP_REGRESSIONS[1], (s1 or THREADED_PUMP_REGRESSIONS)[0], th[0])]
+    coverage = {"states": max(1, mc["distinct"]), "transitions": max(1, mc["generated"]), "traces_validated_against_impl": t_stats["runs"] + h_stats["runs"], "samples": samples, "exhaustive": True,
+                "model_checking": {"instances": mc["instances"], "ws_fragmentations_exported": len(reads)},
+                "scenario_sources": {"S1_tlc_ws_fragmentations": len(s1), "S2_random_tokio": len(tk), "S2_random_threaded_and_ws": len(th), "S3_regression": len(TOKIO_PUMP_REGRESSIONS) + len(THREADED_PUMP_REGRESSIONS)},
+                "events_validated": events, "panics_observed": t_stats["panics"] + h_stats["panics"], "ws_runs_skipped_no_loopback": skipped, "breaches": breaches_n, "known_findings_seen": sorted(set(seen)),
+                "explanation": ("TLC checked BytePump.tla (write loop with cumulative cursor, WebSocket adapter read/write as written, command channel and the two result mechanisms) for plain/tokio, plain/threaded and "
+                                "ws/threaded (%d distinct states) and rediscovered each recorded defect when it is switched on; %d runs of the real tokio client (scripted transport: partial writes, stalls, read fragments) and %d "
+                                "runs of the real threaded client (scripted non-blocking transport; WebSocket runs over a loopback socket incl. every fragmentation TLC enumerated) were judged by MonC13 at packet level") % (mc["distinct"], t_stats["runs"], h_stats["runs"])}
+    write_evidence(pid, tier, seed, coverage,
+                   ["faithfulness is judged at packet level by the reference codec (tagged payloads): lost / duplicated / reordered bytes show as an undecodable stream, a damaged payload, a missing or a repeated packet",
+                    "the threaded client runs in real time (idle sleep 1 ms); 'never resolves' is concluded only after close() and a settle period",
+                    "WebSocket runs need a loopback TCP socket; third-party adapters (tokio-tungstenite, TLS) are outside the model",
+                    "TLC as the judge of MonC13 and BytePump.tla"], time.time() - t0, violations, {"log": log})
+    return 1 if violations else 0
+
 # ------------------------------------------------------------------------------------------------
 # engine properties
 
 def engine_volume(tier):
     if tier == "thorough":
-        return dict(scripted=2000, adversarial=2000, faithful=2000, cycles=3000, length=80, s1=6000)
-    return dict(scripted=150, adversarial=150, faithful=150, cycles=300, length=50, s1=600)
+        return dict(scripted=2000, adversarial=2000, faithful=2000, cycles=3000, races=3000, length=80, s1=6000)
+    return dict(scripted=150, adversarial=150, faithful=150, cycles=300, races=300, length=50, s1=600)
 
 
 def sample_evenly(items, n):
@@ -818,7 +969,7 @@ def check_engine_property(pid, tier, seed):
 
     # 2. code: execute the scenarios on the real engine (S1 from TLC, S2 random, S3 regression)
     args = ["--state", "--scripts-in", s1_path, "--regress", "--scripted", str(vol["scripted"]), "--adversarial", str(vol["adversarial"]),
-            "--faithful", str(vol["faithful"]), "--cycles", str(vol["cycles"]), "--len", str(vol["length"]), "--seed", str(seed)]
+            "--faithful", str(vol["faithful"]), "--cycles", str(vol["cycles"]), "--races", str(vol["races"]), "--len", str(vol["length"]), "--seed", str(seed)]
     if tier == "thorough" and pid in ("C06", "C01"):
         args += ["--wrap", "1"]
     trace, scripts, stats = engine_run(args, workdir, "runs")
@@ -835,7 +986,7 @@ def check_engine_property(pid, tier, seed):
     # drift escalates: look ten times harder around it before concluding
     if conf["drift"] and violations == 0:
         args2 = ["--state", "--scripted", str(vol["scripted"] * 5), "--adversarial", str(vol["adversarial"] * 5), "--faithful", str(vol["faithful"] * 5),
-                 "--cycles", str(vol["cycles"] * 5), "--len", str(vol["length"]), "--seed", str(seed + 7919)]
+                 "--cycles", str(vol["cycles"] * 5), "--races", str(vol["races"] * 5), "--len", str(vol["length"]), "--seed", str(seed + 7919)]
         trace2, scripts2, stats2 = engine_run(args2, workdir, "escalated")
         v2, seen2, details2, _ = judge_trace(pid, trace2, scripts2, workdir, known, log, "esc")
         violations += v2
@@ -864,7 +1015,7 @@ def check_engine_property(pid, tier, seed):
                            "scripts_exported": len(mc["scripts"]), "scripts_replayed": len(s1) + len(cex)},
         "events_validated": details["events"],
         "scenario_sources": {"S1_tlc_scripts": len(s1) + len(cex), "S3_regression": True, "S2_scripted": vol["scripted"], "S2_adversarial": vol["adversarial"],
-                             "S2_faithful": vol["faithful"], "S2_cycles": vol["cycles"]},
+                             "S2_faithful": vol["faithful"], "S2_cycles": vol["cycles"], "S2_races": vol["races"]},
         "panics_observed": stats["panics"], "inapplicable_decisions": stats["inapplicable"],
         "breaches": details["breaches"], "known_findings_seen": sorted(set(seen)),
         "conformance": details["conformance"],
@@ -932,6 +1083,8 @@ def main(argv):
             return check_codec(pid, tier, seed)
         if pid == "C20":
             return check_aws(pid, tier, seed)
+        if pid == "C13":
+            return check_pump(pid, tier, seed)
         print("no check registered for", pid)
         return 2
     except ToolError as e:
